@@ -283,6 +283,14 @@ def generic_replay(c):
             if nme in ("self", "cls"):
                 return {"confirmed": None, "detail": "method with receiver: no generic replay"}
             names.append(nme)
+            dotted = {k[len(nme) + 1:]: v for k, v in model.items() if isinstance(k, str) and k.startswith(nme + ".")}
+            if nme not in model and dotted:
+                # an object parameter described field by field in the counter-model: build a real instance (best effort), else not concretisable
+                built = _build_object(obj, nme, dotted)
+                if built is None:
+                    return {"confirmed": None, "detail": f"object parameter {nme} not concretisable from the counter-model"}
+                pools.append([built])
+                continue
             if nme in model:
                 v = model[nme]
                 if isinstance(v, dict) and ("__opaque__" in v or "__set__" in v or "__absent__" in v):
@@ -294,17 +302,66 @@ def generic_replay(c):
                 pools.append(["", "a", "1a", "$", "class", "²"] if "str" in ann else ([0, 1, -1, 404, 500] if "int" in ann else [None]))
         clause = ob.info.get("clause")
         tried = 0
+        import copy as _copy
         for combo in itertools.islice(itertools.product(*pools), 60):
-            bound = dict(zip(names, combo))
+            bound = {k_: _copy.deepcopy(v_) for k_, v_ in zip(names, combo)}
             res = monitor.run_contract(c, lambda: monitor._call(obj, **bound), dict(bound))
-            tried += 1
             if not res.pre_ok:
-                continue
+                continue  # not an input the contract speaks about
+            tried += 1
             failed = [f for f in res.failed if clause is None or f[0] == clause or ob.kind in ("nothrow", "raises-only")]
             if failed:
                 return {"confirmed": True, "detail": f"native call {path}({bound!r}) -> {res.result!r} raised={res.raised!r} failed={res.failed}", "inputs": bound}
+        if tried == 0:
+            return {"confirmed": None, "detail": "no concretised input satisfies the precondition: counter-model not concretisable"}
         return {"confirmed": False, "detail": f"{tried} native call(s) on the counter-model inputs satisfy the contract"}
     return hook
+
+
+def _build_object(fn, pname, fields):
+    """an instance of the parameter's annotated class with the fields the counter-model mentions (enum members written `<Class.MEMBER>` are looked
+    up in the function's module); None when that is not possible"""
+    import re as _re
+    import typing
+    try:
+        hints = typing.get_type_hints(fn)
+    except Exception:  # noqa
+        hints = {}
+    cls = hints.get(pname)
+    if not isinstance(cls, type):
+        return None
+    try:
+        inst = cls()
+    except Exception:  # noqa
+        return None
+    g = getattr(fn, "__globals__", {})
+
+    def conv(v):
+        if isinstance(v, str):
+            m = _re.fullmatch(r"<(\w+)\.(\w+)>", v)
+            if m and isinstance(g.get(m.group(1)), type):
+                try:
+                    return g[m.group(1)][m.group(2)]
+                except Exception:  # noqa
+                    return v
+            return v
+        if isinstance(v, list):
+            return [conv(x) for x in v]
+        if isinstance(v, dict):
+            if "__opaque__" in v or "__absent__" in v:
+                raise ValueError("opaque")
+            if "__set__" in v:
+                return {conv(x) for x in v["__set__"]}
+            return {k: conv(x) for k, x in v.items() if k != "__default__"}
+        return v
+    try:
+        for k, v in fields.items():
+            if "." in k:
+                return None
+            setattr(inst, k, conv(v))
+    except Exception:  # noqa
+        return None
+    return inst
 
 
 def _is_known(known, ident):
